@@ -274,7 +274,9 @@ func (r *Rec) Witness(id string, fails func() (bool, string)) {
 	r.mu.Unlock()
 	if !open && bad {
 		r.Violation(map[string]interface{}{"kind": "witness", "finding": id, "detail": detail})
-		r.t.Errorf("witness of finding %s (status %s) fails on this tree: %s", id, w.Status, detail)
+		t, status := r.t, w.Status
+		// fail at the end of the test: rapid.Check refuses to start on an already failed *testing.T
+		t.Cleanup(func() { t.Errorf("witness of finding %s (status %s) fails on this tree: %s", id, status, detail) })
 	}
 }
 
